@@ -96,7 +96,11 @@ def run_job(job):
             if not c03.applicable(blocks, o):
                 r.skip('spelling option does not touch this tree')
                 continue
-            md, rec = trees.to_markdown(blocks, o)
+            try:
+                md, rec = trees.to_markdown(blocks, o, strict=True)
+            except trees.Unwritable:
+                r.skip('a written line reads as a thematic break (nested empty items)')
+                continue
             r.transitions += 1
             res = check(md, rec)
             if isinstance(res, tuple):
